@@ -1,6 +1,7 @@
 package main
 
 import (
+	"strings"
 	"bytes"
 	"encoding/json"
 	"fmt"
@@ -254,9 +255,14 @@ func textMessage(size int) []byte {
 }
 
 // post hands one POST to the server's ServeHTTP. declared < 0 means chunked.
-func (s *pollSession) post(body []byte, declared int64) (code int, read int, panicked any) {
+func (s *pollSession) post(body []byte, declared int64, jsonp ...bool) (code int, read int, panicked any) {
 	cb := &countingBody{data: body}
-	req := httptest.NewRequest("POST", s.target(), cb)
+	target := s.target()
+	isJSONP := len(jsonp) > 0 && jsonp[0]
+	if isJSONP {
+		target += "&j=0" // JSON-P polling: the payload travels as form field d
+	}
+	req := httptest.NewRequest("POST", target, cb)
 	req.ContentLength = declared
 	if declared < 0 {
 		req.TransferEncoding = []string{"chunked"}
@@ -264,6 +270,9 @@ func (s *pollSession) post(body []byte, declared int64) (code int, read int, pan
 		req.Header.Set("Content-Length", strconv.FormatInt(declared, 10))
 	}
 	req.Header.Set("Content-Type", "text/plain;charset=UTF-8")
+	if isJSONP {
+		req.Header.Set("Content-Type", "application/x-www-form-urlencoded")
+	}
 	rec := httptest.NewRecorder()
 	func() {
 		defer func() { panicked = recover() }()
@@ -288,7 +297,7 @@ func (c pollCase) String() string {
 	return fmt.Sprintf("MaxBufferSize=%s, POST body of %d bytes ('4' + %d x 'a'), %s, via %s", c.Limit, c.Size, c.Size-1, c.Mode, via)
 }
 
-var pollModes = []string{"content-length", "chunked", "under-declared"}
+var pollModes = []string{"content-length", "chunked", "under-declared", "jsonp-content-length", "jsonp-chunked", "jsonp-under-declared"}
 
 func modeIndex(m string) int {
 	for i, x := range pollModes {
@@ -344,8 +353,19 @@ func runPollCase(c *ctx, pc pollCase, limIdx int, st *partStats) {
 	}
 	over := limit > 0 && pc.Size > limit
 	body := textMessage(pc.Size)
+	isJSONP := strings.HasPrefix(pc.Mode, "jsonp")
+	msgSize := pc.Size
+	if isJSONP {
+		// the HTTP body has the tested size: "d=" + message
+		msgSize = pc.Size - 2
+		body = append([]byte("d="), textMessage(msgSize)...)
+		if over && msgSize <= limit {
+			st.Outcomes["jsonp: body above, message within the limit (no requirement)"]++
+			return
+		}
+	}
 	declared := int64(pc.Size)
-	switch pc.Mode {
+	switch strings.TrimPrefix(pc.Mode, "jsonp-") {
 	case "chunked":
 		declared = -1
 	case "under-declared":
@@ -366,7 +386,7 @@ func runPollCase(c *ctx, pc pollCase, limIdx int, st *partStats) {
 		read = -1
 	} else {
 		var p any
-		code, read, p = sess.post(body, declared)
+		code, read, p = sess.post(body, declared, isJSONP)
 		if p != nil {
 			report(kPollPanic, fmt.Sprintf("panic: %v", p))
 			return
@@ -387,11 +407,14 @@ func runPollCase(c *ctx, pc pollCase, limIdx int, st *partStats) {
 	if over {
 		if oversize != nil {
 			key := kPollCL
-			switch pc.Mode {
+			switch strings.TrimPrefix(pc.Mode, "jsonp-") {
 			case "chunked":
 				key = kPollChunked
 			case "under-declared":
 				key = kPollUnder
+			}
+			if isJSONP {
+				key += " (JSON-P form body)"
 			}
 			report(key, fmt.Sprintf("status %d, the %d-byte message was delivered to OnPacket although the limit is %d (declared Content-Length %d, %d body bytes read)", code, oversize.wire, limit, declared, read))
 			st.Outcomes["over limit: delivered"]++
@@ -429,7 +452,7 @@ func runPollCase(c *ctx, pc pollCase, limIdx int, st *partStats) {
 		report(kPollRefused, fmt.Sprintf("status %d, delivered=%v (announced maxPayload %d)", code, deliveredTested, sess.announced))
 		return
 	}
-	if len(got) != 1 || got[0].wire != pc.Size || !got[0].intact {
+	if len(got) != 1 || got[0].wire != msgSize || !got[0].intact {
 		report(kPollCorrupt, fmt.Sprintf("OnPacket saw %+v", got))
 		return
 	}
@@ -500,8 +523,11 @@ func pollCases(c *ctx) (cases []pollCase, limIdx []int) {
 		sess.srv.Close()
 		for _, size := range sizesFor(limit, c.thorough, 1) {
 			for _, mode := range pollModes {
-				if mode == "under-declared" && !(limit > 0 && size > limit) {
+				if strings.HasSuffix(mode, "under-declared") && !(limit > 0 && size > limit) {
 					continue // a lie only matters where the truth would have been refused
+				}
+				if strings.HasPrefix(mode, "jsonp") && size < 4 {
+					continue // "d=4" is the smallest JSON-P body that carries a message
 				}
 				cases = append(cases, pollCase{Part: "polling", Limit: spec.Name, Size: size, Mode: mode})
 				limIdx = append(limIdx, li)
